@@ -137,8 +137,8 @@ void run(vf::Ctx &c) {
   int signal = c.pick("signal", 3);
   int path = c.pick("path", 3);
   int which = c.pick("resource", 4);
-  int scopes = 1 + c.pick("scopes", 2);
-  int items = 1 + c.pick("items", 2);
+  int scopes = 1 + c.pick("scopes", c.thorough() ? 3 : 2);
+  int items = 1 + c.pick("items", c.thorough() ? 3 : 2);
   const char *dis = kDisabledValues[c.pick("OTEL_SDK_DISABLED", (int)(sizeof kDisabledValues / sizeof *kDisabledValues))];
   bool disabled = dis && strcasecmp(dis, "true") == 0;
   if (dis) setenv("OTEL_SDK_DISABLED", dis, 1); else unsetenv("OTEL_SDK_DISABLED");
@@ -159,7 +159,7 @@ void run(vf::Ctx &c) {
       tp = sdktrace::TracerProviderFactory::Create(sdktrace::TracerContextFactory::Create(std::move(ps), res));
     }
     for (int s = 0; s < scopes; ++s) {
-      auto tracer = tp->GetTracer(s ? "lib-two" : "lib-one", "1.0");
+      auto tracer = tp->GetTracer(s == 0 ? "lib-one" : s == 1 ? "lib-two" : "lib-three", "1.0");
       for (int i = 0; i < items; ++i) { tracer->StartSpan("op")->End(); c.step(); }
     }
     verify(c, "span", seen, (size_t)(scopes * items), tp->GetResource(), passed);
@@ -183,7 +183,7 @@ void run(vf::Ctx &c) {
       lp = sdklogs::LoggerProviderFactory::Create(sdklogs::LoggerContextFactory::Create(std::move(ps), res));
     }
     for (int s = 0; s < scopes; ++s) {
-      auto logger = lp->GetLogger(s ? "logger-two" : "logger-one", s ? "lib-two" : "lib-one", "1.0");
+      auto logger = lp->GetLogger(s == 0 ? "logger-one" : s == 1 ? "logger-two" : "logger-three", s == 0 ? "lib-one" : s == 1 ? "lib-two" : "lib-three", "1.0");
       for (int i = 0; i < items; ++i) { logger->EmitLogRecord(ot::logs::Severity::kInfo, "message"); c.step(); }
     }
     verify(c, "log", seen, (size_t)(scopes * items), lp->GetResource(), passed);
@@ -205,7 +205,7 @@ void run(vf::Ctx &c) {
     mp->AddMetricReader(reader);
     std::vector<nostd::unique_ptr<ot::metrics::Counter<uint64_t>>> counters;
     for (int s = 0; s < scopes; ++s) {
-      auto meter = mp->GetMeter(s ? "lib-two" : "lib-one", "1.0");
+      auto meter = mp->GetMeter(s == 0 ? "lib-one" : s == 1 ? "lib-two" : "lib-three", "1.0");
       counters.push_back(meter->CreateUInt64Counter("requests"));
       counters.back()->Add(3);
     }
